@@ -723,10 +723,11 @@ Lemma encode_sections_ok ign defs idxs :
                                sec_params s = s_params c) new /\
     (forall n, no_param_from defs idxs n -> prop_get n props' = prop_get n props) /\
     (* the last section *)
-    exists e0 c vs props_k sec,
+    exists e0 c vs props_k sec new0,
       e0 ++ skipn (length e0) e = e /\ (Z.of_nat (length e0) mod 8 = 0)%Z /\
       In c defs /\ s_end c = true /\ length (s_params c) = length vs /\
-      encode_section ign c vs props_k (o ++ e0) = Ok (o', props', sec).
+      encode_section ign c vs props_k (o ++ e0) = Ok (o', props', sec) /\
+      new = new0 ++ [sec].
 Proof.
   intros Hdefs. rewrite forallb_forall in Hdefs.
   induction idxs as [|i idxs IH]; intros json props secs o o' props' secs'; cbn [encode_sections].
@@ -745,7 +746,7 @@ Proof.
         cbn [sections_nbits]. split; [lia|]. split; [exact Hm1|]. split; [constructor; [exact Hsec|constructor]|].
         split.
         { intros n Hno. eapply encode_section_props; [|exact Hs]. apply Hno; [exact Hin|]. rewrite Hidx. left; reflexivity. }
-        exists [], c, vs, props, sec. cbn [app length skipn]. rewrite app_nil_r.
+        exists [], c, vs, props, sec, []. cbn [app length skipn]. rewrite app_nil_r.
         repeat split; auto.
       * apply IH in H as (e2 & new & -> & -> & Hl2 & Hm2 & Hall & Hprops & Hlast).
         exists (e1 ++ e2), (sec :: new). rewrite <- !app_assoc. split; [reflexivity|]. split; [reflexivity|].
@@ -757,8 +758,8 @@ Proof.
         { intros n Hno. rewrite Hprops.
           - eapply encode_section_props; [|exact Hs]. apply Hno; [exact Hin|]. rewrite Hidx. left; reflexivity.
           - intros c0 A B. apply Hno; [exact A|right; exact B]. }
-        destruct Hlast as (e0 & c5 & vs5 & props_k & sec5 & He0 & Hm0 & Hin5 & Hend5 & Hlen5 & Henc5).
-        exists (e1 ++ e0), c5, vs5, props_k, sec5.
+        destruct Hlast as (e0 & c5 & vs5 & props_k & sec5 & new0 & He0 & Hm0 & Hin5 & Hend5 & Hlen5 & Henc5 & ->).
+        exists (e1 ++ e0), c5, vs5, props_k, sec5, (sec :: new0).
         split.
         { rewrite app_length, <- app_assoc. f_equal.
           rewrite Nat.add_comm, <- skipn_skipn. rewrite skipn_app_exact by reflexivity. exact He0. }
@@ -772,4 +773,249 @@ Proof.
       split.
       { intros n Hno. apply Hprops. intros c0 A B. apply Hno; [exact A|right; exact B]. }
       exact Hlast.
+Qed.
+
+(* ---- the two signature sections of the bundled definitions --------------- *)
+Lemma pad_bits_64 e : pad_bits e 64 = 0%Z.
+Proof. unfold pad_bits. destruct (e <=? 3)%Z; reflexivity. Qed.
+Lemma pad_bits_32 e : pad_bits e 32 = 0%Z.
+Proof. unfold pad_bits. destruct (e <=? 3)%Z; reflexivity. Qed.
+
+Lemma encode_section0 ign vs props o o' props' sec :
+  length vs = 3%nat ->
+  encode_section ign section0 vs props o = Ok (o', props', sec) ->
+  exists l len ed,
+    vs = [PBytes l; PUint len; PUint ed] /\
+    o' = o ++ bits_of_bytes (pad_bytes l 4) ++ to_bits 24 (Z.to_N len) ++ to_bits 8 (Z.to_N ed) /\
+    props' = (Nedition, PUint ed) :: (Nlength, PUint len) :: props /\
+    sec = mkSec 0 (s_params section0) 64
+            [(Nstart_signature, PBytes l); (Nlength, PUint len); (Nedition, PUint ed)] /\
+    (0 <= len < 2 ^ 24)%Z.
+Proof.
+  intros Hlen H. destruct vs as [|v1 [|v2 [|v3 [|]]]]; try discriminate.
+  apply encode_section_pieces in H as (body & props1 & edition & Hw & He & H). cbv zeta in H.
+  destruct H as (Hi & Hp & Hn & H).
+  change (find_param Nsection_length (s_params section0)) with (@None param) in H.
+  destruct H as (-> & -> & Hv).
+  cbn [section0 s_params write_params] in Hw.
+  apply bind_ok in Hw as (o1 & H1 & Hw). apply bind_ok in Hw as (o2 & H2 & Hw). apply bind_ok in Hw as (o3 & H3 & Hw).
+  injection Hw as <- <-.
+  unfold write_param in H1, H2, H3. cbn [p_type p_nbits] in H1, H2, H3.
+  destruct v1; try discriminate. destruct v2; try discriminate. destruct v3; try discriminate.
+  unfold write_bytes in H1. change (32 / 8 <? 0)%Z with false in H1. injection H1 as <-.
+  pose proof (write_uint_exact _ _ _ _ H2) as (-> & Hr2 & _).
+  pose proof (write_uint_exact _ _ _ _ H3) as (-> & Hr3 & _).
+  unfold add_prop in He. cbn [p_prop p_name] in He. unfold edition_of in He. cbn [prop_get] in He.
+  change (pname_beq Nedition Nedition) with true in He. injection He as <-.
+  exists l, z, z0. split; [reflexivity|].
+  match goal with |- context [pad_bits _ (Z.of_nat (length ?b))] =>
+    assert (Lb : length b = 64%nat)
+      by (rewrite !app_length, !length_to_bits, length_bits_of_bytes, length_pad_bytes; reflexivity) end.
+  rewrite Lb in *. change (Z.of_nat 64) with 64%Z in *. rewrite pad_bits_64 in *.
+  cbn [Z.to_nat zeros repeat app] in *. rewrite !app_nil_r in *.
+  split; [rewrite <- !app_assoc; reflexivity|]. split; [reflexivity|].
+  split; [|exact Hr2].
+  destruct sec as [si sp sn sv]. cbn [sec_index sec_params sec_nbits sec_values] in *. subst si sp sv.
+  f_equal. rewrite Hn, app_length, Lb. lia.
+Qed.
+
+Lemma encode_section5 ign vs props o o' props' sec :
+  length vs = 1%nat ->
+  encode_section ign section5 vs props o = Ok (o', props', sec) ->
+  exists l, vs = [PBytes l] /\ o' = o ++ bits_of_bytes (pad_bytes l 4) /\ props' = props /\
+            sec_values sec = [(Nstop_signature, PBytes l)].
+Proof.
+  intros Hlen H. destruct vs as [|v1 [|]]; try discriminate.
+  apply encode_section_pieces in H as (body & props1 & edition & Hw & He & H). cbv zeta in H.
+  destruct H as (Hi & Hp & Hn & H).
+  change (find_param Nsection_length (s_params section5)) with (@None param) in H.
+  destruct H as (-> & -> & Hv).
+  cbn [section5 s_params write_params] in Hw.
+  apply bind_ok in Hw as (o1 & H1 & Hw). injection Hw as <- <-.
+  unfold write_param in H1. cbn [p_type p_nbits] in H1. destruct v1; try discriminate.
+  unfold write_bytes in H1. change (32 / 8 <? 0)%Z with false in H1. injection H1 as <-.
+  exists l. split; [reflexivity|].
+  match goal with |- context [pad_bits _ (Z.of_nat (length ?b))] =>
+    assert (Lb : length b = 32%nat)
+      by (rewrite ?app_length, length_bits_of_bytes, length_pad_bytes; reflexivity) end.
+  rewrite Lb. change (Z.of_nat 32) with 32%Z. rewrite pad_bits_32.
+  cbn [Z.to_nat zeros repeat app]. rewrite !app_nil_r. split; [reflexivity|]. split; [reflexivity|exact Hv].
+Qed.
+
+Lemma definitions_end c : In c definitions -> s_end c = true -> c = section5.
+Proof.
+  unfold definitions. cbn [In]. intros H He.
+  repeat (destruct H as [<-|H]; [try discriminate; try reflexivity|]). contradiction.
+Qed.
+
+Lemma definitions_length_owner c : In c definitions -> s_index c <> 0%N ->
+  has_param Nlength (s_params c) = false.
+Proof.
+  unfold definitions. cbn [In]. intros H He.
+  repeat (destruct H as [<-|H]; [first [reflexivity | exfalso; apply He; reflexivity]|]). contradiction.
+Qed.
+
+Lemma definitions_edition_owner c : In c definitions -> s_index c <> 0%N ->
+  has_param Nedition (s_params c) = false.
+Proof.
+  unfold definitions. cbn [In]. intros H He.
+  repeat (destruct H as [<-|H]; [first [reflexivity | exfalso; apply He; reflexivity]|]). contradiction.
+Qed.
+
+(* ---- bits <-> bytes -------------------------------------------------------- *)
+Lemma length_bytes_of_bits n : forall b, length (bytes_of_bits n b) = n.
+Proof. induction n as [|n IH]; intros b; cbn [bytes_of_bits length]; [reflexivity|]. rewrite IH. reflexivity. Qed.
+
+Lemma to_bytes_whole o k : length o = (8 * k)%nat -> to_bytes o = bytes_of_bits k o.
+Proof.
+  intros H. unfold to_bytes. rewrite H.
+  replace ((8 * k + 7) / 8)%nat with k by (apply Nat.div_unique with 7%nat; lia).
+  rewrite Nat.sub_diag. cbn [zeros repeat]. rewrite app_nil_r. reflexivity.
+Qed.
+
+Lemma bytes_of_bits_app n1 : forall n2 b,
+  bytes_of_bits (n1 + n2) b = bytes_of_bits n1 b ++ bytes_of_bits n2 (skipn (8 * n1) b).
+Proof.
+  induction n1 as [|n1 IH]; intros n2 b; [reflexivity|].
+  cbn [Nat.add bytes_of_bits app]. f_equal. rewrite IH. f_equal. f_equal.
+  replace (8 * S n1)%nat with (8 * n1 + 8)%nat by lia. rewrite <- skipn_skipn. reflexivity.
+Qed.
+
+Lemma bits_of_bytes_of_bits k : forall o, length o = (8 * k)%nat -> bits_of_bytes (bytes_of_bits k o) = o.
+Proof.
+  induction k as [|k IH]; intros o H.
+  - destruct o; [reflexivity|discriminate].
+  - cbn [bytes_of_bits bits_of_bytes]. rewrite IH by (rewrite skipn_length; lia).
+    rewrite <- (firstn_skipn 8 o) at 3. f_equal.
+    assert (L8 : length (firstn 8 o) = 8%nat) by (rewrite firstn_length; lia).
+    rewrite <- L8 at 1. apply to_bits_of_bits.
+Qed.
+
+Lemma bits_of_bytes_app a b : bits_of_bytes (a ++ b) = bits_of_bytes a ++ bits_of_bytes b.
+Proof. induction a as [|x a IH]; [reflexivity|]. cbn [app bits_of_bytes]. rewrite IH, app_assoc. reflexivity. Qed.
+
+Lemma forallb_is_byte_bytes_of_bits k : forall o, forallb is_byte (bytes_of_bits k o) = true.
+Proof.
+  induction k as [|k IH]; intros o; [reflexivity|]. cbn [bytes_of_bits forallb]. rewrite IH, andb_true_r.
+  unfold is_byte. pose proof (of_bits_lt (firstn 8 o)) as H.
+  assert (length (firstn 8 o) <= 8)%nat by (rewrite firstn_length; lia).
+  assert (2 ^ N.of_nat (length (firstn 8 o)) <= 2 ^ 8)%N by (apply N.pow_le_mono_r; lia).
+  change (2 ^ 8)%N with 256%N in *. lia.
+Qed.
+
+Lemma ok_inj {A} (a b : A) : Ok a = Ok b -> a = b.
+Proof. intros H; injection H; auto. Qed.
+
+Lemma find_owner_none n secs : forall b acc,
+  Forall (fun s => find_param n (sec_params s) = None) secs -> find_owner n b secs acc = acc.
+Proof.
+  induction secs as [|s secs IH]; intros b acc H; cbn [find_owner]; [reflexivity|].
+  inversion H as [|? ? H1 H2]; subst. rewrite H1. apply IH, H2.
+Qed.
+
+Lemma replace_section_head k s s' r : sec_index s = k -> replace_section k s' (s :: r) = s' :: r.
+Proof. intros H. cbn [replace_section]. rewrite H, N.eqb_refl. reflexivity. Qed.
+
+(* the shape of every successfully encoded message (bundled definitions):
+   signature octets, the total length, the edition, whole-octet sections, the
+   stop signature octets; and the length attribute equals the octet count *)
+Lemma encode_message_shape ign json m :
+  encode_message ign json = Ok m ->
+  exists l ed e0 l5 sec0 mid sec5,
+    let nbytes := (Z.of_nat (64 + length e0 + 32) / 8)%Z in
+    m_bytes m = to_bytes (bits_of_bytes (pad_bytes l 4) ++ to_bits 24 (Z.to_N nbytes) ++
+                          to_bits 8 (Z.to_N ed) ++ e0 ++ bits_of_bytes (pad_bytes l5 4)) /\
+    (Z.of_nat (length e0) mod 8 = 0)%Z /\ (0 <= nbytes < 2 ^ 24)%Z /\
+    prop_get Nlength (m_props m) = Some (PUint nbytes) /\
+    m_sections m = sec0 :: mid ++ [sec5] /\
+    sec_values sec0 = [(Nstart_signature, PBytes l); (Nlength, PUint nbytes); (Nedition, PUint ed)] /\
+    sec_values sec5 = [(Nstop_signature, PBytes l5)] /\
+    sections_nbits (m_sections m) = (64 + length e0 + 32)%nat.
+Proof.
+  unfold encode_message, encode_message_with. intros H.
+  apply bind_ok in H as ([[o props] secs] & Hs & H).
+  unfold section_indices in Hs. cbn [encode_sections] in Hs.
+  destruct json as [|vs json']; [discriminate|].
+  change (configure_section definitions [] 0 false false) with (@Ok (option sconfig) (Some section0)) in Hs.
+  cbn [bind] in Hs.
+  destruct (Nat.eqb_spec (length (s_params section0)) (length vs)) as [Hl3|]; [|discriminate]. cbn [negb] in Hs.
+  apply bind_ok in Hs as ([[o1 props1] sec0] & H0 & Hs).
+  apply encode_section0 in H0 as (l & len & ed & -> & -> & -> & -> & Hr); [|symmetry; exact Hl3].
+  change (s_end section0) with false in Hs. cbv iota in Hs.
+  apply (encode_sections_ok ign definitions [1;2;3;4;5;6]%N definitions_sl_first) in Hs
+    as (e & new & -> & -> & Hl & Hm & Hall & Hprops & Hlast).
+  destruct Hlast as (e0 & c5 & vs5 & props_k & sec5 & mid & He0 & Hm0 & Hin5 & Hend5 & Hlen5 & Henc5 & ->).
+  pose proof (definitions_end _ Hin5 Hend5) as ->.
+  apply encode_section5 in Henc5 as (l5 & -> & Eo & _ & Hv5); [|symmetry; exact Hlen5].
+  (* e = e0 ++ stop signature *)
+  assert (Ee : e = e0 ++ bits_of_bytes (pad_bytes l5 4)).
+  { rewrite <- !app_assoc in Eo. apply app_inv_head in Eo. cbn [app] in Eo.
+    repeat apply app_inv_head in Eo. exact Eo. }
+  assert (Hno : forall n, (forall c, In c definitions -> s_index c <> 0%N -> has_param n (s_params c) = false) ->
+                          no_param_from definitions [1;2;3;4;5;6]%N n).
+  { intros n Hn c Hc Hi. apply Hn; [exact Hc|]. intros E. rewrite E in Hi. cbn in Hi. intuition discriminate. }
+  rewrite (Hprops Nlength (Hno _ definitions_length_owner)) in H. cbn [prop_get] in H.
+  change (pname_beq Nedition Nlength) with false in H. change (pname_beq Nlength Nlength) with true in H.
+  cbv iota in H.
+  assert (Hown : find_owner Nlength 0 (([] ++ [mkSec 0 (s_params section0) 64
+                 [(Nstart_signature, PBytes l); (Nlength, PUint len); (Nedition, PUint ed)]]) ++ mid ++ [sec5]) None
+                 = Some (O, mkSec 0 (s_params section0) 64
+                 [(Nstart_signature, PBytes l); (Nlength, PUint len); (Nedition, PUint ed)])).
+  { change (([] ++ [mkSec 0 (s_params section0) 64
+                 [(Nstart_signature, PBytes l); (Nlength, PUint len); (Nedition, PUint ed)]]) ++ mid ++ [sec5])
+      with (mkSec 0 (s_params section0) 64
+                 [(Nstart_signature, PBytes l); (Nlength, PUint len); (Nedition, PUint ed)] :: mid ++ [sec5]).
+    cbn [find_owner sec_params]. change (find_param Nlength (s_params section0)) with (Some (mkP Nlength 24 TUint None true)).
+    cbn [p_prop]. apply find_owner_none. eapply Forall_impl; [|exact Hall].
+    intros s (c & Hc & Hi & _ & Hp). rewrite Hp. apply find_param_has. apply definitions_length_owner; [exact Hc|].
+    intros E. rewrite E in Hi. cbn in Hi. intuition discriminate. }
+  set (body0 := bits_of_bytes (pad_bytes l 4)) in *.
+  assert (Lb0 : length body0 = 32%nat) by (unfold body0; rewrite length_bits_of_bytes, length_pad_bytes; reflexivity).
+  assert (Ls5 : length (bits_of_bytes (pad_bytes l5 4)) = 32%nat) by (rewrite length_bits_of_bytes, length_pad_bytes; reflexivity).
+  assert (Lo : Z.of_nat (length (([] ++ body0 ++ to_bits 24 (Z.to_N len) ++ to_bits 8 (Z.to_N ed)) ++ e))
+               = Z.of_nat (64 + length e0 + 32)).
+  { rewrite Ee, !app_length, !length_to_bits, Lb0, Ls5. cbn [length]. lia. }
+  assert (Hme : (Z.of_nat (length e) mod 8 = 0)%Z) by exact Hm.
+  assert (Hnb : (0 <= Z.of_nat (64 + length e0 + 32) / 8)%Z) by zdiv.
+  exists l, ed, e0, l5. cbv zeta.
+  set (nbytes := (Z.of_nat (64 + length e0 + 32) / 8)%Z) in *.
+  assert (Hsecs : sections_nbits (mkSec 0 (s_params section0) 64
+                 [(Nstart_signature, PBytes l); (Nlength, PUint nbytes); (Nedition, PUint ed)] :: mid ++ [sec5])
+                 = (64 + length e0 + 32)%nat).
+  { cbn [sections_nbits sec_nbits]. rewrite <- Hl, Ee, app_length, Ls5. lia. }
+  destruct ((len =? 0)%Z || ign) eqn:Eb.
+  - rewrite Hown in H.
+    change (param_offset Nlength (sec_params {| sec_index := 0; sec_params := s_params section0; sec_nbits := 64;
+              sec_values := [(Nstart_signature, PBytes l); (Nlength, PUint len); (Nedition, PUint ed)] |}))
+      with (Some 32%Z) in H.
+    change (find_param Nlength (sec_params {| sec_index := 0; sec_params := s_params section0; sec_nbits := 64;
+              sec_values := [(Nstart_signature, PBytes l); (Nlength, PUint len); (Nedition, PUint ed)] |}))
+      with (Some (mkP Nlength 24 TUint None true)) in H.
+    cbv iota in H. apply bind_ok in H as (o'' & Hset & H).
+    rewrite Lo in Hset, H. fold nbytes in Hset, H. apply ok_inj in H. subst m.
+    cbn [m_bytes m_props m_sections prop_get p_nbits] in Hset |- *. change (pname_beq Nlength Nlength) with true.
+    unfold set_uint in Hset. change (24 <=? 0)%Z with false in Hset.
+    destruct (Z.ltb_spec nbytes 0); [discriminate|]. destruct (Z.leb_spec (2 ^ 24) nbytes); [discriminate|].
+    apply ok_inj in Hset. subst o''.
+    eexists. exists mid, sec5. split.
+    { f_equal. cbn [app]. change (0 + Z.to_nat 32)%nat with 32%nat. change (Z.to_nat 24) with 24%nat.
+      rewrite <- !app_assoc. rewrite firstn_app_exact by exact Lb0. f_equal.
+      rewrite (app_assoc body0). rewrite skipn_app_exact by (rewrite app_length, length_to_bits, Lb0; reflexivity).
+      rewrite Ee. reflexivity. }
+    split; [rewrite Ee, app_length, Ls5 in Hme; zdiv|]. split; [lia|]. split; [reflexivity|].
+    split; [cbn [app]; apply replace_section_head; reflexivity|].
+    cbn [sec_values set_value]. change (pname_beq Nstart_signature Nlength) with false.
+    change (pname_beq Nlength Nlength) with true. cbv iota.
+    split; [reflexivity|]. split; [exact Hv5|exact Hsecs].
+  - rewrite Lo in H. fold nbytes in H.
+    destruct (Z.eqb_spec len nbytes) as [->|]; [|discriminate]. cbn [negb] in H.
+    apply ok_inj in H. subst m. cbn [m_bytes m_props m_sections].
+    eexists. exists mid, sec5. split.
+    { f_equal. cbn [app]. rewrite <- !app_assoc. rewrite Ee. reflexivity. }
+    split; [rewrite Ee, app_length, Ls5 in Hme; zdiv|]. split; [exact Hr|].
+    split.
+    { rewrite (Hprops Nlength (Hno _ definitions_length_owner)). cbn [prop_get].
+      change (pname_beq Nedition Nlength) with false. change (pname_beq Nlength Nlength) with true. reflexivity. }
+    split; [reflexivity|]. cbn [sec_values].
+    split; [reflexivity|]. split; [exact Hv5|exact Hsecs].
 Qed.
